@@ -13,6 +13,7 @@ def evItem : Ev → Option (List Str × Bool × Bool)
   | .enter p => some (p, true, false)
   | .visit p f => some (p, false, f)
   | .leave _ _ => none
+  | .skipped _ _ => none
 
 /-- the traversal descends through every directory strictly between `base` and the item -/
 def ChainT (sel : List Str → Bool → Bool × Bool) (base : Nat) (p : List Str) : Prop :=
@@ -146,7 +147,9 @@ theorem tr_node_item (sel : List Str → Bool → Bool × Bool) (names : List St
           · simp only [List.mem_singleton] at hev
             subst hev
             simp [evItem] at hi
-          · simp at hev
+          · simp only [List.mem_singleton] at hev
+            subst hev
+            simp [evItem] at hi
       · rintro ⟨⟨e, he, h1, h2, h3⟩, h4, h5⟩
         rcases he with he | he
         · subst he
@@ -292,6 +295,83 @@ theorem tr_list_leave (sel : List Str → Bool → Bool × Bool) (names : List S
       exact ⟨⟨e, List.mem_append.mpr (Or.inl he), h⟩, h'⟩
     · rcases ih2 hev with ⟨⟨e, he, h⟩, h'⟩
       exact ⟨⟨e, List.mem_append.mpr (Or.inr he), h⟩, h'⟩
+end
+
+
+/-! ### every traversed directory is handed to `removeUnexpectedFiles` (after the fix) -/
+
+theorem dirListings_prefix (names : List Str) : ∀ (l : List Node) (p : List Str) (ns : List Str),
+    (p, ns) ∈ dirListingsList names l → ∃ n rest, p = names ++ n :: rest
+  | [], p, ns, h => by simp [dirListingsList] at h
+  | .file n sz :: r, p, ns, h => by
+    simp only [dirListingsList, dirListingsNode, List.nil_append] at h
+    exact dirListings_prefix names r p ns h
+  | .other n :: r, p, ns, h => by
+    simp only [dirListingsList, dirListingsNode, List.nil_append] at h
+    exact dirListings_prefix names r p ns h
+  | .dir n ch :: r, p, ns, h => by
+    simp only [dirListingsList, dirListingsNode, List.cons_append, List.mem_cons, List.mem_append,
+      Prod.mk.injEq] at h
+    rcases h with h | h | h
+    · exact ⟨n, [], h.1⟩
+    · rcases dirListings_prefix (names ++ [n]) ch p ns h with ⟨m, rest, hr⟩
+      exact ⟨n, m :: rest, by rw [hr]; simp⟩
+    · exact dirListings_prefix names r p ns h
+
+mutual
+theorem tr_node_deldir (sel : List Str → Bool → Bool × Bool) (names : List Str) :
+    ∀ (n : Node) (p : List Str) (ns : List Str), (p, ns) ∈ dirListingsNode names n →
+      ChainT sel names.length p → (sel p true).2 = true →
+        ∃ ev ∈ (trNode sel names n).1, delDir ev = some (p, some ns)
+  | .file n sz, p, ns => by simp [dirListingsNode]
+  | .other n, p, ns => by simp [dirListingsNode]
+  | .dir n ch, p, ns => by
+    intro h hc hs
+    have ih := tr_list_deldir sel (names ++ [n]) ch p ns
+    simp only [dirListingsNode, List.mem_cons, Prod.mk.injEq] at h
+    unfold trNode
+    rcases h with ⟨rfl, rfl⟩ | h
+    · simp only [hs, if_true]
+      generalize trList sel (names ++ [n]) ch = r
+      obtain ⟨evs, chr⟩ := r
+      simp only
+      by_cases hl : ((sel (names ++ [n]) true).1 || chr) = true
+      · rw [if_pos hl]
+        exact ⟨Ev.leave (names ++ [n]) (some (ch.map Node.name)), by simp, rfl⟩
+      · rw [if_neg hl]
+        exact ⟨Ev.skipped (names ++ [n]) (some (ch.map Node.name)), by simp, rfl⟩
+    · rcases dirListings_prefix (names ++ [n]) ch p ns h with ⟨m, rest, hr⟩
+      have hr' : p = names ++ [n] ++ m :: rest := by rw [hr]
+      rw [hr'] at hc
+      rcases (chainT_below sel names n m rest).mp hc with ⟨hs2, hc'⟩
+      rw [← hr'] at hc'
+      rcases ih h hc' hs with ⟨ev, hev, hd⟩
+      simp only [hs2, if_true]
+      generalize trList sel (names ++ [n]) ch = r at hev
+      obtain ⟨evs, chr⟩ := r
+      simp only at hev ⊢
+      exact ⟨ev, by simp only [List.mem_append]; exact Or.inl (Or.inr hev), hd⟩
+theorem tr_list_deldir (sel : List Str → Bool → Bool × Bool) (names : List Str) :
+    ∀ (l : List Node) (p : List Str) (ns : List Str), (p, ns) ∈ dirListingsList names l →
+      ChainT sel names.length p → (sel p true).2 = true →
+        ∃ ev ∈ (trList sel names l).1, delDir ev = some (p, some ns)
+  | [], p, ns => by simp [dirListingsList]
+  | c :: cs, p, ns => by
+    intro h hc hs
+    have ih1 := tr_node_deldir sel names c p ns
+    have ih2 := tr_list_deldir sel names cs p ns
+    simp only [dirListingsList, List.mem_append] at h
+    unfold trList
+    generalize trNode sel names c = r1 at ih1
+    obtain ⟨e1, b1⟩ := r1
+    generalize trList sel names cs = r2 at ih2
+    obtain ⟨e2, b2⟩ := r2
+    simp only at ih1 ih2 ⊢
+    rcases h with h | h
+    · rcases ih1 h hc hs with ⟨ev, hev, hd⟩
+      exact ⟨ev, List.mem_append.mpr (Or.inl hev), hd⟩
+    · rcases ih2 h hc hs with ⟨ev, hev, hd⟩
+      exact ⟨ev, List.mem_append.mpr (Or.inr hev), hd⟩
 end
 
 end Restic.Proofs.C20
